@@ -55,12 +55,12 @@ func run(c *props.Ctx) {
 	c.R.Floor("LAY-4", 22)
 	c.R.Floor("AXIS-1", 30)
 	c.R.Floor("LAY-7", 6)
-	c.R.Floor("LAY-9", 4)
+	c.R.Floor("LAY-9", 5)
 	c.R.Floor("IO-3", 30)
 	c.R.Floor("LAY-3", 25)
 	c.R.Floor("LAY-1", 20)
 	c.R.Floor("LAY-2", 18)
-	c.R.Floor("LAY-8", 4)
+	c.R.Floor("LAY-8", 3)
 	c.R.Floor("HDRP-1", 5)
 	c.R.Floor("CLAIM-2", 2)
 	c.R.Floor("CLAIM-3", 14)
